@@ -279,6 +279,12 @@ impl ShmWrite for ShmWriter {
             };
             generation.store(gen, atomic::Ordering::Release);
 
+            // The Release store above only orders what comes *before* it. Without this fence the
+            // stores to the clock error bound data below may become visible to a reader before the
+            // odd generation number does (e.g. on aarch64), and a reader would accept a mix of two
+            // updates under an unchanged even generation.
+            atomic::fence(atomic::Ordering::Release);
+
             self.ceb.write(*ceb);
 
             // Mark the end of the update into the memory segment by incrementing the generation
